@@ -377,6 +377,24 @@ func solveAll(jobs []*solveJob, dir string, timeoutS int, needAgree bool, par in
 		}(i, j)
 	}
 	wg.Wait()
+	// A timeout can be an artefact of machine load (several checks side by side, 20+ solver processes each): the
+	// obligations that timed out - at most three per run, a genuinely broken function usually has more and is a
+	// violation anyway - are tried once more, one at a time, with twice the time. A proof found here is a proof.
+	retried := 0
+	for i, j := range jobs {
+		if retried >= 3 {
+			break
+		}
+		if j.o.Expect != "unsat" || j.o.Result != "timeout" {
+			continue
+		}
+		retried++
+		base := fmt.Sprintf("o%05d_%s_retry", i, sanitizeFile(j.o.Name))
+		r := runSolvers(j.o.Script, dir, base, 2*timeoutS, needAgree, j.o.Expect)
+		if r.result == "unsat" {
+			j.o.Result, j.o.Solver, j.o.TimeS, j.o.Output = r.result, r.solver+" (retry)", r.secs, r.out
+		}
+	}
 }
 
 type solveJob struct {
